@@ -13,6 +13,11 @@ Inductive co :=
 | CNew (x : nat) (k : nat -> co)          (* iter(variable._domain_): a new handle *)
 | CPull (h : nat) (k : out -> co)         (* next(handle) *)
 | CYield (r : list Z) (k : co)            (* a row leaves evaluate() *)
+| CForget (k : co)                        (* evaluate(), first advance: the selectors of the query object forget their coverage *)
+| CConclude (key : list Z) (k : list Z -> co)
+                                          (* ConclusionSelector.update_conclusion for key = tag :: binding; the continuation gets
+                                             the node's _conclusion_ set (tags) as the descriptor is about to see it *)
+| CConclClear (k : co)                    (* self._conclusion_.clear() when the selector is resumed after its yield *)
 | CEnd | CErr | COut.                     (* StopIteration | RuntimeError | model ran out of fuel *)
 
 Section Compile.
@@ -53,9 +58,27 @@ Section Compile.
   (* evaluate_selected_variables (krrood 32abf51): lazy nested loops over the selected expressions, leftmost slowest, each
      evaluated under the bindings the ones before it produced; a bound selected variable yields once, an unbound one opens
      a handle on its domain; a row leaves as soon as the innermost loop produces it (nothing is drained beforehand) *)
+  (* a rule query (ExceptIf selector, conclusion_selector.py): for every base row the selector picks the refinement's
+     conclusion (tag 1) or the base one (tag 0), adds it to the node's _conclusion_ set unless that conclusion already covered
+     the binding, and yields to the descriptor; the descriptor applies EVERY conclusion it finds in the set (none: the row is
+     skipped; two -- one left there by another, suspended evaluation of the same query object --: both Adds run and the set's
+     iteration order decides, tag -5 = "0 or 1"); the set is cleared when the selector is resumed. *)
   Definition compile (q : query) : co :=
-    eval_condsC (q_conds q) []
-      (fun b resume => bind_allC (q_sel q) b (fun b' r => CYield (row (q_sel q) b') r) resume) CEnd.
+    match q_rule q with
+    | None => eval_condsC (q_conds q) []
+                (fun b resume => bind_allC (q_sel q) b (fun b' r => CYield (row (q_sel q) b') r) resume) CEnd
+    | Some exc =>
+        CForget (eval_condsC (q_conds q) []
+          (fun b resume =>
+             let tag := if forallb (sat_atom A b) exc then 1 else 0 in
+             let key := row (q_sel q) b in
+             CConclude (tag :: key)
+               (fun pend => match pend with
+                            | [] => CConclClear resume
+                            | [t] => CYield (t :: key) (CConclClear resume)
+                            | _ => CYield ((-5) :: key) (CConclClear resume)
+                            end)) CEnd)
+    end.
 End Compile.
 
 Section Machine.
@@ -63,34 +86,59 @@ Section Machine.
   Variable h0 : H.
   Variable hstp : dstate -> H -> out * dstate * H.
 
-  Record isys := { caches : list dstate; handles : list (nat * H); its : list co }.
+  (* state kept on the selector node of a query object: coverage memory, _conclusion_ set *)
+  Definition nstate := (list (list Z) * list Z)%type.
+  Record isys := { caches : list dstate; handles : list (nat * H); its : list co;
+                   objs : list nat;            (* iterator -> query object it evaluates *)
+                   nodes : list nstate }.      (* per query object *)
 
-  Fixpoint drive (c : co) (cs : list dstate) (hs : list (nat * H)) : ires * co * list dstate * list (nat * H) :=
+  Definition add_tag (t : Z) (p : list Z) : list Z := if mem t p then p else p ++ [t].
+
+  Fixpoint drive (o : nat) (c : co) (cs : list dstate) (hs : list (nat * H)) (ns : list nstate)
+    : ires * co * list dstate * list (nat * H) * list nstate :=
     match c with
-    | CNew x k => drive (k (length hs)) cs (hs ++ [(x, h0)])
+    | CNew x k => drive o (k (length hs)) cs (hs ++ [(x, h0)]) ns
     | CPull h k =>
         match nth_error hs h with
-        | None => (IOut, CEnd, cs, hs)
+        | None => (IOut, CEnd, cs, hs, ns)
         | Some (x, st) =>
             match nth_error cs x with
-            | None => (IOut, CEnd, cs, hs)
-            | Some d => let '(o, d', st') := hstp d st in drive (k o) (upd x d' cs) (upd h (x, st') hs)
+            | None => (IOut, CEnd, cs, hs, ns)
+            | Some d => let '(out_, d', st') := hstp d st in drive o (k out_) (upd x d' cs) (upd h (x, st') hs) ns
             end
         end
-    | CYield r k => (IRow r, k, cs, hs)
-    | CEnd => (IStop, CEnd, cs, hs)
-    | CErr => (IErr, CEnd, cs, hs)
-    | COut => (IOut, CEnd, cs, hs)
+    | CYield r k => (IRow r, k, cs, hs, ns)
+    | CForget k => match nth_error ns o with
+                   | None => (IOut, CEnd, cs, hs, ns)
+                   | Some (_, pend) => drive o k cs hs (upd o ([], pend) ns)
+                   end
+    | CConclude key k =>
+        match nth_error ns o with
+        | None => (IOut, CEnd, cs, hs, ns)
+        | Some (seen, pend) =>
+            let '(seen', pend') := if memkey key seen then (seen, pend)
+                                   else (seen ++ [key], add_tag (hd 0 key) pend) in
+            drive o (k pend') cs hs (upd o (seen', pend') ns)
+        end
+    | CConclClear k => match nth_error ns o with
+                       | None => (IOut, CEnd, cs, hs, ns)
+                       | Some (seen, _) => drive o k cs hs (upd o (seen, []) ns)
+                       end
+    | CEnd => (IStop, CEnd, cs, hs, ns)
+    | CErr => (IErr, CEnd, cs, hs, ns)
+    | COut => (IOut, CEnd, cs, hs, ns)
     end.
 
-  Definition istep (o : iop) (S : isys) : ires * isys :=
-    match o with
-    | INext i => match nth_error (its S) i with
-                 | None => (IOut, S)
-                 | Some c => let '(r, c', cs, hs) := drive c (caches S) (handles S) in
-                             (r, {| caches := cs; handles := hs; its := upd i c' (its S) |})
+  Definition istep (op_ : iop) (S : isys) : ires * isys :=
+    match op_ with
+    | INext i => match nth_error (its S) i, nth_error (objs S) i with
+                 | Some c, Some o =>
+                     let '(r, c', cs, hs, ns) := drive o c (caches S) (handles S) (nodes S) in
+                     (r, {| caches := cs; handles := hs; its := upd i c' (its S); objs := objs S; nodes := ns |})
+                 | _, _ => (IOut, S)
                  end
-    | IClose i => (IClosed, {| caches := caches S; handles := handles S; its := upd i CEnd (its S) |})
+    | IClose i => (IClosed, {| caches := caches S; handles := handles S; its := upd i CEnd (its S);
+                               objs := objs S; nodes := nodes S |})
     end.
 
   Fixpoint ilog (ops : list iop) (S : isys) : list ires :=
@@ -102,15 +150,22 @@ End Machine.
 
 Definition maxlen (W : world) : nat := fold_right (fun w m => Nat.max (length w) m) O W.
 
-Definition isys0 {H} (W : world) (A : attrs) (qs : list query) : isys H :=
+(* [qobjs]: the query objects; [itobj]: which object every iterator evaluates (iterators of one object share its node state) *)
+Definition isys1 {H} (W : world) (A : attrs) (qobjs : list query) (itobj : list nat) : isys H :=
   {| caches := map (fun w => {| cache := []; src := w |}) W; handles := [];
-     its := map (compile A (S (S (S (2 * maxlen W))))) qs |}.
+     its := map (fun o => compile A (S (S (S (2 * maxlen W)))) (nth o qobjs {| q_sel := []; q_conds := []; q_rule := None |})) itobj;
+     objs := itobj; nodes := map (fun _ => ([], [])) qobjs |}.
+(* rule-free queries keep nothing on their nodes: every iterator may as well be its own object *)
+Definition isys0 {H} (W : world) (A : attrs) (qs : list query) : isys H := isys1 W A qs (seq 0 (length qs)).
 
 (* prediction on the current code (iterator of commit 1997e3c) / on the previous iterator (regression only) *)
 Definition model_sched (W : world) (A : attrs) (qs : list query) (ops : list iop) : list ires :=
   ilog rstate (RLive 0 []) rstep ops (isys0 W A qs).
 Definition old_sched (W : world) (A : attrs) (qs : list query) (ops : list iop) : list ires :=
   ilog hstate HNew hstep ops (isys0 W A qs).
+
+Definition model_rsched (W : world) (A : attrs) (qobjs : list query) (itobj : list nat) (ops : list iop) : list ires :=
+  ilog rstate (RLive 0 []) rstep ops (isys1 W A qobjs itobj).
 
 (* ---- cases of the harness (encodings: Eql/ReevalSpecSx.v) ---- *)
 Definition to_sop (o : op) : sop := match o with Create => SCreate | Next h => SNext h | Abandon h => SAbandon h end.
@@ -133,3 +188,26 @@ Definition cache_code_class (c : cache_case) (impl : sx) : Z :=
   cache_code c impl * 10 + (if sx_eqb (cache_old c) (cache_spec c) then 0 else 1).
 Definition sched_code_rep (c : sched_case) (impl : sx) : Z :=
   sched_code c impl * 10 + (if sx_eqb (sched_old c) (sched_spec c) then 0 else 1).
+
+(* (c') iterators of query OBJECTS (rule queries keep state on their selector node, shared by all evaluations of the object) *)
+Definition rsched_case := (world * attrs * list query * list nat * list iop)%type.
+Definition rsched_model (c : rsched_case) : sx := let '(W, A, qo, io, ops) := c in sx_log (model_rsched W A qo io ops).
+Definition rsched_spec (c : rsched_case) : sx :=
+  let '(W, A, qo, io, ops) := c in
+  sx_log (spec_sched (map dedup W) A (map (fun o => nth o qo {| q_sel := []; q_conds := []; q_rule := None |}) io) ops).
+(* the model may say "tag 0 or 1" (SZ (-5)) where two conclusions are applied in set-iteration order *)
+Fixpoint sx_wmatch (m i : sx) {struct m} : bool :=
+  match m, i with
+  | SZ x, SZ y => Z.eqb x y || (Z.eqb x (-5) && (Z.eqb y 0 || Z.eqb y 1))
+  | SL xs, SL ys =>
+      (fix go (xs ys : list sx) {struct xs} : bool :=
+         match xs, ys with
+         | [], [] => true
+         | x :: xs', y :: ys' => sx_wmatch x y && go xs' ys'
+         | _, _ => false
+         end) xs ys
+  | _, _ => false
+  end.
+Definition rsched_code (c : rsched_case) (impl : sx) : Z :=
+  let m := sx_wmatch (rsched_model c) impl in
+  if sx_eqb impl (rsched_spec c) then (if m then 0 else 1) else if m then 2 else 3.
